@@ -52,6 +52,10 @@ pub fn spin_wait(count: usize) {
 #[allow(dead_code)]
 #[inline(always)]
 pub fn yield_now() {
+    #[cfg(feature = "verif")]
+    if crate::verif::spin_cut(crate::verif::SITE_BACKOFF) {
+        return;
+    }
     // This number will be added to the calculated pseudo-random number to avoid
     // short spins.
     const OFFSET: usize = 1 << 6;
